@@ -1,6 +1,6 @@
 """Plumbing: build the harness against /repo's working tree, execute scripts, validate traces with TLC,
 run bounded TLC models, collect verdicts."""
-import json, os, re, shutil, subprocess, sys, time, concurrent.futures as cf
+import json, threading, os, re, shutil, subprocess, sys, time, concurrent.futures as cf
 
 ROOT = os.path.dirname(os.path.dirname(os.path.abspath(__file__)))
 SPEC = os.path.join(ROOT, "spec")
@@ -24,7 +24,7 @@ def log(*a):
 
 def build_harness():
     """(Re)build the harness against the current /repo working tree, hooks enabled (cfg enr_verif)."""
-    lock_src = "/repo/Cargo.lock"
+    lock_src = os.path.join(os.environ.get("VERIF_REPO", "/repo"), "Cargo.lock")   # VERIF_REPO: development only
     lock_dst = os.path.join(HARNESS, "Cargo.lock")
     if not os.path.exists(lock_dst) and os.path.exists(lock_src):
         shutil.copy(lock_src, lock_dst)
@@ -112,12 +112,17 @@ def exec_scripts(scripts, outdir, chunk_events=3000, est=None):
     return out_files, hangs
 
 
+# name of a check ("Cxx/name") -> number of events in which TLC evaluated it (accumulated over all chunks of a run)
+CHECK_COUNTS = {}
+COUNTS_LOCK = threading.Lock()
+
 BAD_RE = re.compile(r'^"BAD (.*)"$')
 DONE_RE = re.compile(r'^"DONE (\d+) of (\d+)"$')
+COUNTS_RE = re.compile(r'^"COUNTS (.*)"$')
 
 
 def tlc_trace(trace_file, metadir, timeout=1800):
-    """Validate one trace chunk. Returns (n_events, bad list)."""
+    """Validate one trace chunk. Returns (n_events, bad list); per-check evaluation counts go to CHECK_COUNTS."""
     env = dict(os.environ, TRACE=trace_file)
     env.pop("JAVA_TOOL_OPTIONS", None)
     # java is invoked directly (same class path as the `tlc` wrapper) so that many single-worker JVMs scale:
@@ -135,6 +140,15 @@ def tlc_trace(trace_file, metadir, timeout=1800):
         m = DONE_RE.match(line)
         if m:
             done = (int(m.group(1)), int(m.group(2)))
+            continue
+        m = COUNTS_RE.match(line)
+        if m:
+            try:
+                for k, v in json.loads(json.loads('"' + m.group(1) + '"')).items():
+                    with COUNTS_LOCK:
+                        CHECK_COUNTS[k] = CHECK_COUNTS.get(k, 0) + int(v)
+            except Exception:
+                pass
     shutil.rmtree(metadir, ignore_errors=True)
     if done is None or done[0] != done[1] or "Model checking completed. No error has been found." not in p.stdout:
         tail = "\n".join(p.stdout.splitlines()[-40:])
